@@ -219,6 +219,12 @@ var targets = []target{
 	{pkg: "gws", fn: "limitedReader.Read", lean: "limitedReader_Read",
 		oracles: map[string]string{"c.R.Read(p)": "srcRead"},
 		doc:     "the counting reader in front of the inflater; what the source's Read returned is an input"},
+	{pkg: "gws", fn: "Conn.doWrite", lean: "Conn_doWrite_windowRule",
+		from: "if opcode.isDataFrame() {", to: "binaryPool.Put(frame)",
+		doc: "which payloads doWrite enters into the compression window: those of data frames only"},
+	{pkg: "gws", fn: "Broadcaster.writeFrame", lean: "Broadcaster_writeFrame_windowRule",
+		from: "if frame.Bytes()[0]&64 != 0 {", to: "return err",
+		doc: "a broadcast payload enters the connection's compression window only when the shared frame is a compressed one (RSV1 set)"},
 	{pkg: "gws", fn: "Conn.compressData", lean: "Conn_compressData",
 		funs:    map[string]int{"c.deflater.Compress": 1},
 		oracles: map[string]string{"internal.AlphabetNumeric.Uint32()": "maskNum"},
@@ -1207,6 +1213,27 @@ func (f *fn) assigned(n ast.Node) []string {
 					note(sel.X)
 				}
 			}
+			// a translated method that threads state (its receiver value, or fields of its receiver)
+			if sel, ok := c.Fun.(*ast.SelectorExpr); ok {
+				if s2, ok := f.p.info.Selections[sel]; ok && s2.Kind() == types.MethodVal {
+					if tk, ok := f.tr.byFunc[funcKey(s2.Obj().(*types.Func))]; ok {
+						r := f.tr.translate(tk)
+						if len(r.state) > 0 && r.hasRecvVal {
+							note(sel.X)
+						} else if len(r.state) > 0 {
+							if base, ok := f.pathOf(sel.X); ok {
+								for _, stn := range r.state {
+									for _, pp := range r.pathParams {
+										if leanIdent(pp) == stn {
+											set[leanIdent(base+strings.TrimPrefix(pp, r.recvName))] = true
+										}
+									}
+								}
+							}
+						}
+					}
+				}
+			}
 		}
 		switch s := x.(type) {
 		case *ast.AssignStmt:
@@ -1218,7 +1245,13 @@ func (f *fn) assigned(n ast.Node) []string {
 							note(c.Args[0])
 						}
 						if rt := f.typeOf(sel.X); rt != nil && isPayload(rt) && sel.Sel.Name == "WriteTo" {
-							note(c.Args[0])
+							if u, ok := c.Args[0].(*ast.UnaryExpr); ok && u.Op == token.AND {
+								if base, ok := f.pathOf(u.X); ok {
+									set[leanIdent(base+".dict")] = true
+								}
+							} else {
+								note(c.Args[0])
+							}
 						}
 					}
 				}
@@ -1697,6 +1730,26 @@ func (f *fn) tupleCall(st *ast.AssignStmt) (string, bool) {
 				b := f.lvalueName(c.Args[0])
 				return fmt.Sprintf("let %s := %s ++ %s", b, b, f.expr(sel.X)), true
 			}
+			// payload.WriteTo(&window): internal.Bytes writes its bytes once; internal.Buffers writes slice after slice, which
+			// leaves the same window (C17: the window is a function of the concatenation, Win.writes_spec)
+			if u, ok := c.Args[0].(*ast.UnaryExpr); ok && u.Op == token.AND {
+				if n, ok := f.typeOf(u.X).(*types.Named); ok && n.Obj().Name() == "slideWindow" {
+					if base, ok := f.pathOf(u.X); ok {
+						r := f.tr.translate("gws.slideWindow.Write")
+						st := n.Underlying().(*types.Struct)
+						ft := map[string]types.Type{}
+						for i := 0; i < st.NumFields(); i++ {
+							ft[st.Field(i).Name()] = st.Field(i).Type()
+						}
+						en := f.usePath(base+".enabled", ft["enabled"], c)
+						di := f.usePath(base+".dict", ft["dict"], c)
+						sz := f.usePath(base+".size", ft["size"], c)
+						f.state[di] = true
+						f.tmp++
+						return fmt.Sprintf("let (%s, r%d) := (Trans.%s %s %s %s %s)", di, f.tmp, r.t.lean, f.expr(sel.X), en, di, sz), true
+					}
+				}
+			}
 		}
 	}
 	// a call whose two results are an input of the target
@@ -1958,8 +2011,11 @@ func (f *fn) ifStmt(st *ast.IfStmt, next cont) string {
 	if len(vars) == 0 {
 		// nothing the translation tracks is assigned: still translate the branches, so that a statement outside the
 		// fragment is reported instead of being dropped
-		_ = f.block(st.Body.List, func() string { return "()" })
-		_ = f.block(elseList, func() string { return "()" })
+		b1 := f.block(st.Body.List, func() string { return "()" })
+		b2 := f.block(elseList, func() string { return "()" })
+		if strings.TrimSpace(b1) != "()" || strings.TrimSpace(b2) != "()" {
+			f.bad(st, "an if whose branches have effects that the assigned-variable analysis does not see")
+		}
 		return sb.String() + next()
 	}
 	t := tuple(vars)
